@@ -1,0 +1,27 @@
+//go:build verif
+
+package utils
+
+import (
+	"os"
+	"syscall"
+)
+
+// Crash points (build tag verif) between the file-system steps of
+// EncodeJSONFile. A child process started with VERIF_CRASH_AT=<name> kills
+// itself (SIGKILL, nothing flushed or deferred) when it reaches that point;
+// "mid-write" first puts half of the pending bytes on disk.
+
+// VerifCrashPoints lists the crash points in the order they are reached.
+var VerifCrashPoints = []string{"opened", "mid-write", "written", "synced"}
+
+func verifCrash(name string, f *os.File, data []byte) {
+	if os.Getenv("VERIF_CRASH_AT") != name {
+		return
+	}
+	if len(data) > 0 && f != nil {
+		f.Write(data[:len(data)/2])
+	}
+	syscall.Kill(os.Getpid(), syscall.SIGKILL)
+	select {}
+}
